@@ -1,5 +1,6 @@
 import Secp.Driver.Ops
 import Secp.Gen.TraceFacts
+import Secp.Hand.Slices
 namespace Driver
 open Spec Hand Hand.ElementL
 
@@ -158,6 +159,15 @@ def xmdOp (op : String) (a : List String) : Option (List String) :=
             (match sp.1 with
              | none => [kv "s_panic" "1"]
              | some v => [kv "s_v" (natHex v 32)]) ++ [kv "s_used" (toString sp.2)])
+  | "MEM.vet", [back, off, len, spare] =>
+      -- the caller's backing array `back`, DST = back[off : off+len : off+len+spare]
+      let back := parseBytes back; let off := off.toNat!; let len := len.toNat!; let spare := spare.toNat!
+      let h0 : Hand.Slices.Heap := [back]
+      let r := Hand.Slices.vetDST sha h0 ⟨0, off, len, len + spare⟩
+      some [kv "b" (showBytes (r.1.getD 0 [])), kv "o" (showBytes (Hand.Slices.read r.1 r.2)),
+            kv "fresh" (b2s (r.2.buf ≠ 0)),
+            kv "s_b" (showBytes back), kv "s_fresh" "1",
+            kv "s_o" (showBytes (Hand.Group.vetDSTXMD sha ((back.drop off).take len)))]
   | "TR.alts", [] =>
       let M : Nat := 2^61 - 1
       let hstr (s : String) : Nat := s.toList.foldl (fun a c => (a * 131 + c.toNat) % 2147483647) 7
